@@ -110,6 +110,60 @@ impl StrSpace {
 }
 
 // ---------------------------------------------------------------------------------------------
+// progress reporting for the supervising parent process (see supervise.rs)
+// ---------------------------------------------------------------------------------------------
+
+pub const SLOT: u64 = 32;
+pub const NSLOTS: u64 = 256;
+pub const CASE_AREA: u64 = SLOT * NSLOTS;
+pub const CASE_MAX: usize = 1 << 16;
+
+pub struct Iso {
+    pub file: std::fs::File,
+    /// bisect mode: run only (sweep, block), single-threaded, announcing every case
+    pub only: Option<(u64, u64)>,
+}
+static ISO: std::sync::OnceLock<Option<Iso>> = std::sync::OnceLock::new();
+static SWEEP: AtomicU64 = AtomicU64::new(0);
+
+pub fn iso() -> Option<&'static Iso> {
+    ISO.get_or_init(|| {
+        let path = std::env::var("VP_PROGRESS").ok()?;
+        let file = std::fs::OpenOptions::new().read(true).write(true).open(path).ok()?;
+        let only = std::env::var("VP_ONLY").ok().and_then(|v| {
+            let (a, b) = v.split_once(':')?;
+            Some((a.parse().ok()?, b.parse().ok()?))
+        });
+        Some(Iso { file, only })
+    })
+    .as_ref()
+}
+fn slot_write(iso: &Iso, t: u64, sweep: u64, block: u64, running: u64, beat: u64) {
+    use std::os::unix::fs::FileExt;
+    let mut b = [0u8; 32];
+    b[0..8].copy_from_slice(&sweep.to_le_bytes());
+    b[8..16].copy_from_slice(&block.to_le_bytes());
+    b[16..24].copy_from_slice(&running.to_le_bytes());
+    b[24..32].copy_from_slice(&beat.to_le_bytes());
+    let _ = iso.file.write_at(&b, (t % NSLOTS) * SLOT);
+}
+/// bisect mode: announce the case about to run (index + text)
+pub fn announce_case(idx: u64, text: &str) {
+    if let Some(iso) = iso() {
+        if iso.only.is_some() {
+            use std::os::unix::fs::FileExt;
+            let bytes = text.as_bytes();
+            let n = bytes.len().min(CASE_MAX);
+            let mut b = Vec::with_capacity(16 + n);
+            b.extend_from_slice(&idx.to_le_bytes());
+            b.extend_from_slice(&(n as u64).to_le_bytes());
+            b.extend_from_slice(&bytes[..n]);
+            let _ = iso.file.write_at(&b, CASE_AREA);
+        }
+    }
+}
+
+// ---------------------------------------------------------------------------------------------
 // parallel block runner
 // ---------------------------------------------------------------------------------------------
 
@@ -144,15 +198,31 @@ pub fn par_blocks<F>(nblocks: u64, budget: &Budget, f: F) -> (Acc, u64)
 where
     F: Fn(u64, &mut Acc) + Sync,
 {
+    let sweep = SWEEP.fetch_add(1, Ordering::SeqCst);
+    if let Some(iso) = iso() {
+        if let Some((s, b)) = iso.only {
+            // bisect mode: only the requested block of the requested sweep, on this thread
+            let mut acc = Acc::default();
+            if s == sweep && b < nblocks {
+                slot_write(iso, 0, sweep, b, 1, 1);
+                f(b, &mut acc);
+                slot_write(iso, 0, sweep, b, 0, 2);
+            }
+            return (acc, nblocks);
+        }
+    }
     let next = AtomicU64::new(0);
     let done = AtomicU64::new(0);
     let nthreads = threads().min(nblocks.max(1) as usize).max(1);
+    let tid = AtomicU64::new(0);
     let mut total = Acc::default();
     std::thread::scope(|sc| {
         let mut hs = vec![];
         for _ in 0..nthreads {
             hs.push(sc.spawn(|| {
                 let mut acc = Acc::default();
+                let t = tid.fetch_add(1, Ordering::Relaxed);
+                let mut beat = 0u64;
                 loop {
                     if budget.expired() {
                         break;
@@ -161,8 +231,15 @@ where
                     if b >= nblocks {
                         break;
                     }
+                    if let Some(iso) = iso() {
+                        beat += 1;
+                        slot_write(iso, t, sweep, b, 1, beat);
+                    }
                     f(b, &mut acc);
                     done.fetch_add(1, Ordering::Relaxed);
+                }
+                if let Some(iso) = iso() {
+                    slot_write(iso, t, sweep, 0, 0, beat + 1);
                 }
                 acc
             }));
@@ -187,7 +264,13 @@ where
     let n = space.len();
     let nblocks = (n + BLOCK - 1) / BLOCK;
     let (acc, done) = par_blocks(nblocks, budget, |b, acc| {
-        space.for_range(b * BLOCK, ((b + 1) * BLOCK).min(n), |_, s| f(s, acc));
+        let announcing = iso().map_or(false, |i| i.only.is_some());
+        space.for_range(b * BLOCK, ((b + 1) * BLOCK).min(n), |i, s| {
+            if announcing {
+                announce_case(i, s);
+            }
+            f(s, acc)
+        });
     });
     (acc, done == nblocks)
 }
